@@ -234,7 +234,7 @@ def run_instance(args):
         ms_sym, ms_real = get_modsets(hmod, params, mutate)
         E = core.set_engine(core.Engine(timeout_ms=opts.get('timeout_ms', 20000),
                                         max_paths=opts.get('max_paths', 200000)))
-        E.allow_realise = bool(opts.get('allow_realise', False))
+        E.allow_realise = bool(opts.get('allow_realise', False) or params.get('allow_realise', False))
         want_samples = opts.get('samples', 2)
         xval = opts.get('xval', True)
         max_viol = opts.get('max_violations', 3)
